@@ -639,7 +639,7 @@ def mutate(root, ops, rng):
 class C01(fw.Check):
     prop = "C01"
     lean_targets = ["OdmlModel.Props.C01"]
-    obligations = ["C01." + t for t in ['csv_lib_roundtrip', 'csv_roundtrip', 'csv_empty_iff', 'csv_legacy_counterexample_comma', 'csv_legacy_counterexample_quote', 'csv_legacy_counterexample_newline', 'csv_legacy_counterexample_single_quote', 'csv_legacy_counterexample_single_bracket', 'csv_legacy_counterexample_empty', 'int_text_roundtrip', 'tuple_text_roundtrip', 'value_retyped', 'value_text_roundtrip', 'card_text_roundtrip', 'leaf_text_roundtrip', 'xml_vocab', 'xml_version', 'writer_keys_readable', 'xml_unrepresentable_chars', 'uncertainty_counterexample', 'blank_name_counterexample', 'tuple_item_refused', 'tuple_item_refused_raises', 'name_clash_counterexample', 'prop_xml_roundtrip', 'sec_xml_roundtrip', 'xml_roundtrip', 'xml_roundtrip_lenient', 'xml_save_load', 'dtype_case_counterexample', 'xml_denote', 'xml_strict_lenient_agree', 'xml_denote_sec', 'xml_denote_prop', 'xml_write_denotes', 'xml_roundtrip_or_refused', 'xml_refused_iff_not_repr']]
+    obligations = ["C01." + t for t in ['csv_lib_roundtrip', 'csv_roundtrip', 'csv_empty_iff', 'csv_legacy_counterexample_comma', 'csv_legacy_counterexample_quote', 'csv_legacy_counterexample_newline', 'csv_legacy_counterexample_single_quote', 'csv_legacy_counterexample_single_bracket', 'csv_legacy_counterexample_empty', 'int_text_roundtrip', 'tuple_text_roundtrip', 'value_retyped', 'value_text_roundtrip', 'card_text_roundtrip', 'leaf_text_roundtrip', 'xml_vocab', 'xml_version', 'writer_keys_readable', 'xml_unrepresentable_chars', 'uncertainty_counterexample', 'blank_name_refused', 'tuple_item_refused', 'tuple_item_refused_raises', 'name_clash_refused', 'prop_xml_roundtrip', 'sec_xml_roundtrip', 'xml_roundtrip', 'xml_roundtrip_lenient', 'xml_save_load', 'dtype_case_counterexample', 'xml_denote', 'xml_strict_lenient_agree', 'xml_denote_sec', 'xml_denote_prop', 'xml_write_denotes', 'xml_roundtrip_or_refused', 'xml_refused_iff_not_repr']]
     trusted_base = [
         "Lean 4.33.0 kernel; axioms propext, Classical.choice, Quot.sound only (audited per theorem)",
         "hand-written models lean/OdmlModel/Py/Csv.lean, Model/XmlCsv.lean, Model/Xml.lean, "
@@ -1033,14 +1033,6 @@ class C01(fw.Check):
     def finding_key(self, case, obs, failure):
         if failure.startswith("DIFF[uncertainty_number]"):
             return "uncertainty_number_loaded_as_str"
-        if failure.startswith("DIFF[blank_name]"):
-            return "blank_name_replaced_by_id"
-        if failure.startswith("DIFF[names_clash]") or failure.startswith("WARN[names_clash]"):
-            return "sibling_names_equal_after_trim"
-        if failure.startswith("LOAD ") and "[shapes:" in failure:
-            shapes = failure.rsplit("[shapes:", 1)[1].rstrip("]").split(",")
-            if " raised parser" in failure and "names_clash_after_trim" in shapes:
-                return "sibling_names_equal_after_trim"
         return None
 
     def tag(self, case, obs):
